@@ -141,7 +141,9 @@ func checkC19(c *core.Check) {
 		workers int
 	}
 	// MC_GenDir_dne*: histories in which the header option changes between runs (length <= 2 / <= 3)
-	runs := []mc{{"MC_GenDir.cfg", 4}, {"MC_GenDir_dne.cfg", 4}}
+	// MC_GenDir_fail: histories of two runs over specs that fail before writing / while rendering, after or before a
+	// run that succeeded (a failure must be reported whatever the directory holds)
+	runs := []mc{{"MC_GenDir.cfg", 4}, {"MC_GenDir_dne.cfg", 4}, {"MC_GenDir_fail.cfg", 4}}
 	if c.Tier == "thorough" {
 		runs = []mc{{"MC_GenDir.cfg", 4}, {"MC_GenDir_dne3.cfg", 8}, {"MC_GenDir_len4.cfg", 8}, {"MC_GenDir_thorough.cfg", 16}}
 	}
